@@ -99,6 +99,40 @@ func verifPoint(name string) {
 	}
 }
 
+var (
+	verifPauseMx    sync.Mutex
+	verifPauseArmed = map[string]*verifPauseSlot{}
+)
+
+type verifPauseSlot struct {
+	reached chan struct{}
+	release chan struct{}
+}
+
+// VerifPauseAt arms a one-shot pause: the next goroutine that reaches the named
+// point closes reached and waits until release is called.
+func VerifPauseAt(name string) (reached <-chan struct{}, release func()) {
+	slot := &verifPauseSlot{reached: make(chan struct{}), release: make(chan struct{})}
+	verifPauseMx.Lock()
+	verifPauseArmed[name] = slot
+	verifPauseMx.Unlock()
+	var once sync.Once
+	return slot.reached, func() { once.Do(func() { close(slot.release) }) }
+}
+
+// verifPause marks a point between two steps of a protocol at which a harness
+// may hold the calling goroutine (see VerifPauseAt).
+func verifPause(name string) {
+	verifPauseMx.Lock()
+	slot := verifPauseArmed[name]
+	delete(verifPauseArmed, name)
+	verifPauseMx.Unlock()
+	if slot != nil {
+		close(slot.reached)
+		<-slot.release
+	}
+}
+
 var verifReadOffsets sync.Map // verifTableKey -> wal.Offset of the last entry read by the table
 
 // verifClosed forgets the hook state of a database that has been closed.
